@@ -118,6 +118,9 @@ def tlc(workdir, module, cfg, workers=1, timeout=1800, extra=(), javaopts=None, 
     if heap:
         jo.append("-Xmx%s" % heap)
     jo.append("-Xss64m")
+    jtmp = os.path.join(workdir, "jtmp")
+    os.makedirs(jtmp, exist_ok=True)
+    jo.append("-Djava.io.tmpdir=" + jtmp)   # SANY unpacks the standard modules into the temp dir on every run
     if javaopts:
         jo += list(javaopts)
     env["JAVA_TOOL_OPTIONS"] = " ".join(jo)
